@@ -105,9 +105,21 @@ class Env:
 # Lean side
 
 
+def _unlimit_as() -> None:
+    """child-side: the address-space limit of harness/cli.py is meant for generated Python runs; Lean reserves a large
+    virtual range per thread and dies with 'failed to create thread' (exit 134) under it whenever a module must be rebuilt"""
+    try:
+        import resource
+
+        hard = resource.getrlimit(resource.RLIMIT_AS)[1]
+        resource.setrlimit(resource.RLIMIT_AS, (hard, hard))
+    except Exception:
+        pass
+
+
 def _run(cmd: list[str], cwd: str, timeout: int = 3600, input_text: str | None = None) -> subprocess.CompletedProcess:
     return subprocess.run(
-        cmd, cwd=cwd, input=input_text, capture_output=True, text=True, timeout=timeout
+        cmd, cwd=cwd, input=input_text, capture_output=True, text=True, timeout=timeout, preexec_fn=_unlimit_as
     )
 
 
